@@ -282,7 +282,15 @@ func (this *partition) proposeAddNode(ctx context.Context, nodeId uint64) error 
 		return err
 	}
 
-	return this.raft.ProposeJoin(nodeId, "")
+	// Not held while proposing: the proposal waits for the group to have a leader
+	this.raftMu.RLock()
+	raft := this.raft
+	this.raftMu.RUnlock()
+	if raft == nil {
+		return RaftNotLoadedOnNodeErr
+	}
+
+	return raft.ProposeJoin(nodeId, "")
 }
 
 func (this *partition) addNode(nodeId uint64) {
@@ -298,7 +306,15 @@ func (this *partition) proposeRemoveNode(ctx context.Context, nodeId uint64) err
 		return err
 	}
 
-	return this.raft.ProposeLeave(nodeId)
+	// Not held while proposing: the proposal waits for the group to have a leader
+	this.raftMu.RLock()
+	raft := this.raft
+	this.raftMu.RUnlock()
+	if raft == nil {
+		return RaftNotLoadedOnNodeErr
+	}
+
+	return raft.ProposeLeave(nodeId)
 }
 
 func (this *partition) removeNode(nodeId uint64) {
